@@ -257,6 +257,7 @@ def header_class(sheet_name: str, h: str):
 
 ROW_RE = re.compile(r"\[row : (\d+)\]")
 DICT_DUMP_RE = re.compile(r"(?<=is being skipped:\n)\{.*\}$|(?<=has no label: )\{.*\}$", re.S)
+BAD_LANG_RE = re.compile(r"(valid machine-readable codes: )(.*?)\. Learn")
 QUOTED_COL_RE = re.compile(r"the '([^']*)' value is invalid")
 NOTE_RE = re.compile(r"generated_note_name_(\d+)")
 
@@ -323,6 +324,8 @@ def canon_msg(msg: str, survey_map=None, choices_map=None):
         msg = msg[: mm.start()] + "{name=" + (nm.group(1) if nm else "-") + "}" + msg[mm.end():]
     # messages that quote a column header as typed: the column is the subject, not its spelling
     msg = QUOTED_COL_RE.sub(lambda q: "the '" + canon_header(q.group(1)) + "' value is invalid", msg)
+    # the language list of the bad-language-code warning follows column order: the subject is the set
+    msg = BAD_LANG_RE.sub(lambda q: q.group(1) + ", ".join(sorted(q.group(2).split(", "))) + ". Learn", msg)
     m = choices_map if "On the 'choices' sheet" in msg else survey_map
     if m:
         msg = ROW_RE.sub(lambda mm: "[row : %s]" % m.get(int(mm.group(1)), "?" + mm.group(1)), msg)
